@@ -29,7 +29,7 @@ RULE = (
     "node, or a dispatch through a base-class method; distinct = distinct (tree fingerprint, rule set)"
 )
 ASSUMPTIONS = ["CPython's __mro__ is the reference for 'nearest class in its MRO'"]
-MUST_SEE = ["tuple_wider_than_256", "rules_attached_after_class_creation", "raised_BoomAttr", "raised_BoomKey", 
+MUST_SEE = ["strictness_set_per_instance", "tuple_wider_than_256", "rules_attached_after_class_creation", "raised_BoomAttr", "raised_BoomKey", 
     "remove_first", "remove_middle", "remove_last", "remove_all", "remove_single_optional", "unchanged_subtree_under_changed_root",
     "strict_base_only_generic", "raise_below_depth2", "dispatch_second_base", "unchanged_returns_self", "validate_mismatch_raised",
     "validate_ok", "frames_checked", "derived_visitor_after_base_used",
@@ -174,7 +174,8 @@ def run_shard(ctx):
 
         ns = {f"visit_{c}": mk_method(f"visit_{c}") for c in with_methods}
         ns["generic_visit"] = mk_method("generic_visit")
-        ns["strict"] = strict
+        per_instance = rng.random() < 0.3  # strictness chosen per visitor object (the class says the opposite)
+        ns["strict"] = (not strict) if per_instance else strict
         V = type("DV", (ASTVisitor,), ns)
         if rng.random() < 0.5:
             # a base visitor class is used first; the visitor under test derives from it and adds / overrides methods
@@ -182,11 +183,14 @@ def run_shard(ctx):
                 V().visit(memo[id(p.spec)])
             more = set(rng.sample(all_names, rng.randint(1, 4)))
             ns2 = {f"visit_{c}": mk_method(f"visit_{c}") for c in more}
-            ns2["strict"] = strict
+            ns2["strict"] = (not strict) if per_instance else strict
             V = type("DV2", (V,), ns2)
             with_methods = with_methods | more
             ctx.count("derived_visitor_after_base_used")
         v = V()
+        if per_instance:
+            v.strict = strict
+            ctx.count("strictness_set_per_instance")
         for p in pos:
             node = memo[id(p.spec)]
             mro = [c.__name__ for c in type(node).__mro__[:-1]]
